@@ -231,6 +231,18 @@ def install(eng, w):
             return w.mtimes[p.label]
         raise Unsupported("mtime of unknown path %s" % p.label)
 
+    def getsize(eng, p):
+        # size of the cache file in bytes: any number >= 0 for a file an interrupted / in-progress write left, > 0 for a complete one
+        lab = p.label if isinstance(p, PathStr) else str(p)
+        if lab != w.db_label:
+            raise Unsupported("size of %s" % lab)
+        if eng.branch(w.cache_absent):
+            raise PyRaise(make_exc("FileNotFoundError", lab))
+        if getattr(w, "cache_size", None) is None:
+            w.cache_size = eng.input("cache_file_size", eng.fresh_int("size"))
+            eng.assume(w.cache_size >= (1 if w.pickle_outcome is None else 0))
+        return w.cache_size
+
     def join(eng, *parts):
         return PathStr("/".join(x.label if isinstance(x, PathStr) else x for x in parts))
 
@@ -270,7 +282,7 @@ def install(eng, w):
     ident = stub(lambda eng, p_, *a: p_ if isinstance(p_, PathStr) else PathStr(str(p_)))
     os_path = ModuleStub("os.path", {"getmtime": stub(getmtime), "join": stub(join),
                                      # every path of the world is written absolute, normalised and free of links
-                                     "abspath": ident, "realpath": ident, "normpath": ident, "normcase": ident, "expanduser": ident,
+                                     "getsize": stub(getsize), "abspath": ident, "realpath": ident, "normpath": ident, "normcase": ident, "expanduser": ident,
                                      "commonprefix": stub(commonprefix), "commonpath": stub(commonpath),
                                      "dirname": stub(lambda eng, p_: PathStr("/".join(_lab(p_).split("/")[:-1]))),
                                      "basename": stub(lambda eng, p_: _lab(p_).split("/")[-1]),
@@ -285,7 +297,7 @@ def install(eng, w):
             msg = "DeserializingStream::unpack failed" if k.endswith("deserialization") else "some other runtime error"
             raise PyRaise(make_exc("RuntimeError", msg))
         raise PyRaise(make_exc(k, "truncated or garbled pickle"))
-    pickle = ModuleStub("pickle", {"load": stub(pickle_load), "UnpicklingError": EXC["UnpicklingError"],
+    pickle = ModuleStub("pickle", {"load": stub(pickle_load), "UnpicklingError": EXC["UnpicklingError"], "PickleError": EXC["PickleError"], "PicklingError": EXC["PicklingError"],
                                    "dump": stub(lambda eng, *a, **k: None)})
 
     def open_(eng, p, mode="r", **kw):
